@@ -95,6 +95,7 @@ def chem_case(rng, n=None, horz=None, mix=None, land=None):
                  zs=rng.choice([2.0, 5.0, 20.0]),
                  a0=rng.choice([0.0, 5.0, 50.0]), ax=rng.choice([0.0, 1.0]), ay=rng.choice([0.0, -0.5]),
                  dx=rng.choice([160.0, 800.0]))
+    env.dy = env.dx * rng.choice([1.0, 1.0, 0.8, 1.25])     # anisotropic cells: sample_metric returns (dx, dy)
     dt = rng.choice([1.0, 60.0, 600.0, 3600.0])
     mixk = rng.randrange(3) if mix is None else mix
     if mixk == 0:
@@ -542,6 +543,21 @@ def mine_run(case, seed, drv=None, inject=None, ibm=None, state=None):
         return np.asarray(state.active).astype(int).copy() if has_active else np.ones(n, dtype=int)
     before = dict(z=state.Z.copy(), active=act(), alive=state.alive.copy(),
                   age=state["age"].copy(), sink=state["sink_vel"].copy(), x=state.X.copy(), y=state.Y.copy())
+    # `land_collision: reposition` over a history (the same `ibm` object called again): which particles the handler
+    # re-seeds inside their cell, by the rule it documents - a particle (matched by pid) that is where it was when
+    # the handler last ran and is suspended now (LADiM's tracker does not move settled particles, so "has not moved"
+    # says nothing about them).  Kept by the harness itself (`_harness_mem` = pid, X, Y after the previous call; mine
+    # changes X, Y nowhere else), not read from the module's own memory.
+    pid_now = np.asarray(state.pid).copy()
+    stuck = np.zeros(n, bool); remembered = np.zeros(n, bool)
+    mem = getattr(ibm, "_harness_mem", None)
+    if case["land"] == "reposition" and mem is not None:
+        where = {int(p): j for j, p in enumerate(mem[0])}
+        for i in range(n):
+            j = where.get(int(pid_now[i]))
+            if j is not None:
+                remembered[i] = True
+                stuck[i] = bool(mem[1][j] == before["x"][i] and mem[2][j] == before["y"][i] and before["active"][i] != 0)
     masks = {}
     orig_diffuse = ibm.diffuse
 
@@ -558,12 +574,19 @@ def mine_run(case, seed, drv=None, inject=None, ibm=None, state=None):
     na = int(a.sum())
     expected = []
     if case["land"] == "reposition":
-        expected += [("rand", (0,)), ("rand", (0,))]
+        k = int(stuck.sum())        # 0 on the first call of an `ibm` object (nothing remembered yet)
+        expected += [("rand", (k,)), ("rand", (k,))]
+        ibm._harness_mem = (np.asarray(state.pid).copy(), after["x"].copy(), after["y"].copy())
     expected.append(("randn", (na,)))
     got = rec.schedule()
     res = dict(before=before, after=after, model=None, sched=(expected, got), meta={}, n=n, state=state, ibm=ibm)
     H = case["env"].depth(after["x"], after["y"])
     res["meta"]["H"] = H
+    # optional extras for histories with `reposition`: local depth where the particle was when the update began, who
+    # should have been re-seeded by the documented rule, who was known from the previous call
+    res["meta"]["H_before"] = case["env"].depth(before["x"], before["y"])
+    res["meta"]["stuck"] = stuck
+    res["meta"]["remembered"] = remembered
     xi = np.zeros(n)
     if expected == got:
         xi[a] = rec.log[-1][3]
